@@ -35,6 +35,8 @@ type c17bCase struct {
 	// RegionLevel (retry-class): the exception is reported for the whole region action of a
 	// multi-request (throttling, too busy, call queue full reject the batch, not the cheap probe)
 	RegionLevel bool `json:"region_level,omitempty"`
+	// Class2 (alternating): the class of every second answer
+	Class2 string `json:"class2,omitempty"`
 	// CacheRegions (meta-hang, meta-error, meta-down): what keeps failing is the whole-table lookup of
 	// Client.CacheRegions (it has no context: the run ends by closing the client)
 	CacheRegions bool `json:"cache_regions,omitempty"`
@@ -76,6 +78,20 @@ func c17bRunInBubble(c c17bCase) (out Outcome) {
 	marker := func(i int) string { return fmt.Sprintf("mk%d", i+1) }
 	forever := 200
 	switch c.Scenario {
+	case "alternating":
+		// the region answers the request in turns with a retry-later class and with not-serving (its probe succeeds)
+		for i := 0; i < n; i++ {
+			for k := 0; k < forever; k++ {
+				cls, stack := c.Class, "persistent"
+				if k%2 == 1 {
+					cls = c.Class2
+					if cls == sim.IOExc {
+						stack = "Cannot append; log is closed"
+					}
+				}
+				cl.Script[marker(i)] = append(cl.Script[marker(i)], sim.Outcome{Kind: "exc", Class: cls, Stack: stack})
+			}
+		}
 	case "retry-class", "nsre-class":
 		if c.RegionLevel {
 			for _, r := range cl.Regions {
@@ -271,6 +287,14 @@ func c17bSchedule(c c17bCase, cl *sim.Cluster, execs []sim.Exec, dials []sim.Dia
 				times = append(times, e.T)
 			}
 		}
+	case "alternating":
+		what = "attempts of the request at the server (answered in turns " + c.Class + " and " + c.Class2 + ")"
+		free = 2
+		for _, e := range execs {
+			if e.Marker == marker(0) {
+				times = append(times, e.T)
+			}
+		}
 	case "nsre-class":
 		// the region refuses the request as "not serving" although it answers the probe of every
 		// re-establishment (a closed write-ahead log, say): like connection-level failures, two
@@ -365,15 +389,19 @@ func c17bSchedule(c c17bCase, cl *sim.Cluster, execs []sim.Exec, dials []sim.Dia
 		out.Labels = append(out.Labels, "too_few_attempts")
 		return out
 	}
+	// every retry either waits for (at least) the next value of the schedule, or it is one of the at most
+	// `free` immediate ones - wherever in the sequence those come (failures of different kinds may alternate)
 	gaps := scheduleGaps(len(times))
+	k, freeLeft := 0, free
 	for i := 1; i < len(times); i++ {
 		gap := times[i] - times[i-1]
-		k := i - 1 - free
-		if k < 0 {
-			continue
-		}
-		if gap < gaps[k]+hang {
-			return viol("retry-too-fast@"+c.Scenario, "%s: retry %d came %v after the previous attempt, the schedule requires >= %v (attempt times %v)", what, i, gap, gaps[k]+hang, head(times, 12))
+		switch {
+		case gap >= gaps[k]+hang:
+			k++
+		case freeLeft > 0:
+			freeLeft--
+		default:
+			return viol("retry-too-fast@"+c.Scenario, "%s: retry %d came %v after the previous attempt, the schedule requires >= %v by now (%d waits of the schedule and %d immediate retries seen before; attempt times %v)", what, i, gap, gaps[k]+hang, k, free-freeLeft, head(times, 14))
 		}
 	}
 	// the rate is bounded: within the run there cannot be more attempts than the schedule allows
@@ -409,18 +437,18 @@ func TestC17_RetrySchedule(t *testing.T) {
 	rec := evid.New("C17", "TestC17_RetrySchedule",
 		"rapid over enumerated persistent-failure scenarios, exact virtual time, the real back-off function (no stub): "+
 			"the region answers a retryable class forever (single call and SendBatch of 1..3 calls), the region refuses the request as not-serving for ever while it "+
-			"answers the probe of every re-establishment (NotServingRegion, RegionMoved, 'log is closed'), the server accepts "+
+			"answers the probe of every re-establishment (NotServingRegion, RegionMoved, 'log is closed'), the two kinds of answer alternating, the server accepts "+
 			"and then drops the connection on every request, the region's server refuses every dial, the region probe "+
 			"answers NotServing / RegionOpening forever, the hbase:meta server is down, hangs, or answers every scan with an unclassified exception, "+
 			"ZooKeeper errors; the failing operation is a request or (meta scenarios) the whole-table lookup of CacheRegions; key, queue "+
 			"size, flush interval and run length (5..300 virtual seconds) drawn. Oracle on the simulated cluster's "+
 			"timestamps: the gap before retry i is >= the schedule's i-th wait (16 ms doubling below 5 s, then +5 s below "+
-			"30 s, then constant; two immediate retries allowed after connection-level failures), the number of attempts "+
+			"30 s, then constant; at most two immediate retries, wherever in the sequence, where failures are connection-level or not-serving), the number of attempts "+
 			"in the run is bounded by the schedule, the request never returns while the failure persists and returns "+
 			"within 100 virtual ms of its cancellation. Non-trivial = >= 4 consecutive attempts observed; distinct by case hash")
 	Drive(t, rec, true, func(t *rapid.T) c17bCase {
 		c := c17bCase{
-			Scenario:        rapid.SampledFrom([]string{"retry-class", "retry-class", "nsre-class", "nsre-class", "conn-drop", "dial-fail", "probe-drop", "probe-fail", "meta-down", "meta-notserving", "zk-error", "zk-hang", "meta-hang", "meta-error", "meta-error", "meta-older"}).Draw(t, "scenario"),
+			Scenario:        rapid.SampledFrom([]string{"retry-class", "retry-class", "nsre-class", "nsre-class", "alternating", "alternating", "conn-drop", "dial-fail", "probe-drop", "probe-fail", "meta-down", "meta-notserving", "zk-error", "zk-hang", "meta-hang", "meta-error", "meta-error", "meta-older"}).Draw(t, "scenario"),
 			LookupTimeoutMS: rapid.SampledFrom([]int{20, 200, 1000, 30000}).Draw(t, "lookuptimeout"),
 			Batch:           rapid.SampledFrom([]int{0, 0, 1, 2, 3, 8}).Draw(t, "batch"),
 			Key:             evid.B(rapid.SampledFrom([]string{"a", "m", "z", ""}).Draw(t, "key")),
@@ -436,6 +464,15 @@ func TestC17_RetrySchedule(t *testing.T) {
 			c.Class = rapid.SampledFrom([]string{sim.CallQueueBig, sim.RegionOpening, sim.Throttling, sim.RetryImm, sim.TooBusy, sim.PleaseHold}).Draw(t, "class")
 		case "probe-fail":
 			c.Class = rapid.SampledFrom([]string{sim.NSRE, sim.RegionOpening, sim.RegionMoved, sim.TooBusy}).Draw(t, "class")
+		case "alternating":
+			c.Class = rapid.SampledFrom([]string{sim.CallQueueBig, sim.RegionOpening, sim.Throttling, sim.TooBusy}).Draw(t, "class")
+			c.Class2 = rapid.SampledFrom([]string{sim.NSRE, sim.RegionMoved, sim.IOExc}).Draw(t, "class2")
+			if rapid.Bool().Draw(t, "swap") {
+				c.Class, c.Class2 = c.Class2, c.Class
+				if c.Class == sim.IOExc {
+					c.Class = sim.NSRE
+				}
+			}
 		case "nsre-class":
 			c.Class = rapid.SampledFrom([]string{sim.NSRE, sim.RegionMoved, sim.IOExc}).Draw(t, "class")
 			c.RegionLevel = c.Queue > 1 && c.Class != sim.IOExc && rapid.IntRange(0, 2).Draw(t, "regionlevel") == 0
